@@ -94,16 +94,20 @@ def tabulate_handler():
             out.append((lo, hi, ("delegate",)))
         else:
             pre, w, up = pick(k)
-            if hi >= 16 ** w and any(len("%x" % v) > w for v in (hi,)):
-                pass  # pyHex in the model widens like "%0wx" does
             out.append((lo, hi, ("esc", pre, w, up)))
     return out
+
+
+# the code pages the property is about; the source's table may only add to them (a codec that disappears from the
+# table is still exercised by the oracle, which then reports the header/encoding mismatch)
+EXPECTED_CODECS = ["cp874", "cp932", "gbk", "cp949", "cp950", "cp1250", "cp1251", "cp1252", "cp1253", "cp1254", "cp1255",
+                   "cp1256", "cp1257", "cp1258"]
 
 
 def codec_list():
     from ezdxf.tools import codepage
 
-    encs = list(dict.fromkeys(codepage.codepage_to_encoding.values()))
+    encs = list(dict.fromkeys(EXPECTED_CODECS + list(codepage.codepage_to_encoding.values())))
     return encs
 
 
@@ -144,10 +148,12 @@ def int_tables():
             a = int("5" + c, 16)
         except ValueError:
             a = None
-        try:
-            b = int(c + "5", 16)
-        except ValueError:
-            b = None
+        b = None
+        if a is not None:
+            try:
+                b = int(c + "5", 16)
+            except ValueError:
+                b = None
         if a == 5 and b == 5:
             spaces.append(x)
         elif a is not None:
@@ -155,8 +161,6 @@ def int_tables():
             if not (0 <= d < 16) or b != d * 16 + 5:
                 raise ValueError(f"int(): unexpected behaviour for U+{x:04X}")
             digits.append((x, d))
-        elif b is not None:
-            raise ValueError(f"int(): unexpected behaviour for U+{x:04X}")
     return spaces, digits
 
 
@@ -184,8 +188,6 @@ def gen_data():
     for enc in d["codecs"]:
         t = tabulate_codec(enc)
         d["tables"][enc] = t
-        if any(x < 0x20 or x == 0x7F for x in ()):  # pragma: no cover
-            pass
         maxlen = max(len(b) for b in t.values())
         if maxlen == 1:
             dec = []
@@ -268,8 +270,6 @@ def regenerate(ctx):
     out.append("")
     out.append("/-- double-byte code pages: all 1-byte encodings (code point, byte), the sets of lead and trail bytes of\n"
                "    all 2-byte encodings over the BMP, the characters whose encoding does not decode back to them -/")
-    out.append("structure Dbcs where\n  name : Str\n  singles : List (Nat × Nat)\n  leads : List Nat\n  trails : List Nat\n"
-               "  lossy : List Nat\n  count : Nat")
     for enc, v in d["dbcs"].items():
         out.append(f"def {enc}Info : Dbcs where\n  name := {lstr(enc)}\n  singles := "
                    + lean_list(f"({x}, {b})" for x, b in v["singles"]) + f"\n  leads := {nats(v['leads'])}\n"
@@ -288,3 +288,859 @@ def regenerate(ctx):
     out.append("end EzdxfVerif.Gen.EncodingTables")
     ctx.write_gen("EncodingTables", "\n".join(out) + "\n", SRCS)
     ctx.note(f"handler ranges: {[(hex(lo), hex(hi), k) for lo, hi, k in d['fmt']]}")
+
+
+# ====================================================================== implementation side
+RULE = (
+    "correspondence (Lean model vs. real code, line by line): X1 dxf_backslash_replace on single code points "
+    "(stratified over all planes; thorough: whole BMP) and on runs mixing encodable-nowhere characters, U+DC80..DCFF and other "
+    "surrogates; X2 str.encode(codec, 'dxfreplace') for ascii, utf8, the 10 single-byte code pages (model tables) and the 4 "
+    "CJK code pages (per-character encodings supplied by the codec, escape logic by the model) on single code points, all "
+    "category triples and seeded random mixed strings; X3 bytes.decode(codec, 'surrogateescape') for utf8 (structured "
+    "malformed sequences) and the single-byte pages (all 256 bytes); X4 decode_dxf_unicode / has_dxf_unicode / re.split / "
+    "has_mif_encoding / recover.byte_tag_compiler string branch / int(s,16) / chr on exhaustive short and random strings "
+    "over an escape alphabet; X5 toencoding / tocodepage on table keys with prefixes/suffixes and random names; X6 the whole "
+    "pipeline encode -> decode -> decode_dxf_unicode. non-trivial = reaches the handler / a match / a non-default table "
+    "branch; distinct by hash of the request line. oracle: real Drawing.saveas -> ezdxf.readfile / recover.readfile round "
+    "trips of TEXT, MTEXT, layer names, XDATA strings and header variables for R12/R2000/R2004 x 14 code pages and R2007+ "
+    "x {ASCII, binary}."
+)
+TRUSTED_BASE = [
+    "CPython codecs: the 4 CJK code pages enter the theorems only through the recorded laws of `Lawful` (validated "
+    "exhaustively over the BMP by regenerate: per-character round trip, prefix-code structure, byte sets) - not proved",
+    "the single-byte tables and UTF-8 are modelled and proved lawful; that CPython's codecs equal these models is "
+    "tabulated/corresponded, not proved",
+    "CPython `re` for the two small patterns (hand model, pattern text pinned by theorem regex_patterns_as_modelled)",
+    "CPython int(s,16)/chr (hand model + tabulated Unicode space/digit sets)",
+    "TextIOWrapper(errors='dxfreplace') behaves like str.encode per written string (exercised by the oracle only)",
+]
+ASSUMPTIONS = [
+    "strings of the oracle are single-line, BMP, no C0/C1 controls, no surrogates, no literal \\U+ or \\M+, no leading/trailing "
+    "white space, not ending in '^' (ezdxf's one-line-text fixer strips a trailing caret from TEXT on load: not an encoding matter)",
+    "recover.readfile does not read Binary DXF (not a supported combination in ezdxf)",
+]
+OPEN = [
+    "codec laws for cp932, gbk, cp949, cp950 are hypotheses of escape_roundtrip (validated exhaustively, not proved in Lean)",
+    "cp932 (6) and cp950 (9) characters are encoded lossy by CPython's codecs (best fit): excluded by the `good` predicate, "
+    "reported as known finding lossy-codec/*",
+    "file framing (tag lines, NUL termination) is covered by byte-freeness theorems + oracle, the loaders themselves belong to C03/C07",
+    "raw-byte survival (bytes -> str -> bytes) is proved for UTF-8 (utf8_bytes_roundtrip) and in general form "
+    "(encode_surrogate_passthrough); for the single-byte tables it would need table injectivity, which is checked by "
+    "regenerate in Python but not proved in Lean",
+    "code points above U+FFFF under a legacy code page are written as \\U+%08x, which decode_dxf_unicode mis-decodes "
+    "(first 4 digits): outside the property's BMP quantifier, modelled and corresponded but no theorem",
+]
+
+
+def nat_list(b) -> str:
+    return " ".join(str(int(x)) for x in b)
+
+
+def exc_name(e: BaseException) -> str:
+    return type(e).__name__
+
+
+def impl_handler(run: str) -> str:
+    from ezdxf.lldxf.encoding import dxf_backslash_replace
+
+    exc = UnicodeEncodeError("probe", "a" + run + "b", 1, 1 + len(run), "probe")
+    try:
+        rep, end = dxf_backslash_replace(exc)
+    except Exception as e:  # noqa
+        return "err " + exc_name(e)
+    if end != 1 + len(run):
+        return f"other end={end}"
+    if isinstance(rep, bytes):
+        return "bytes " + nat_list(rep)
+    return "str " + cps(rep)
+
+
+def impl_enc(enc: str, s: str) -> str:
+    from ezdxf.lldxf.encoding import encode
+
+    try:
+        return "ok " + nat_list(encode(s, enc))
+    except Exception as e:  # noqa
+        return "err " + exc_name(e)
+
+
+ESC_ALPHABET = "\\U+xX0123456789abcdefABCDEF"
+
+
+def ext_request(enc: str, s: str, grouped: bool) -> str:
+    """request line for a codec whose per-character encoder is supplied by the real codec"""
+    aux = []
+    for ch in dict.fromkeys(s + ESC_ALPHABET):
+        try:
+            aux.append(f"{ord(ch)}:{nat_list(ch.encode(enc))}")
+        except UnicodeEncodeError:
+            pass
+    return f"enc|src|ext{1 if grouped else 0}|{cps(s)}|{','.join(aux)}"
+
+
+def impl_dec(enc: str, b: bytes) -> str:
+    return cps(b.decode(enc, errors="surrogateescape"))
+
+
+def impl_undxf(s: str) -> str:
+    from ezdxf.lldxf.encoding import decode_dxf_unicode
+
+    try:
+        return "ok " + cps(decode_dxf_unicode(s))
+    except Exception as e:  # noqa
+        return "err " + exc_name(e)
+
+
+def impl_split(s: str) -> str:
+    from ezdxf.lldxf.encoding import BACKSLASH_UNICODE
+
+    return ";".join(cps(p) for p in re.split(BACKSLASH_UNICODE, s))
+
+
+def impl_recover(s: str) -> str:
+    """the string branch of recover.byte_tag_compiler on a value that decodes to `s`"""
+    from ezdxf.lldxf.encoding import has_dxf_unicode, has_mif_encoding
+    from ezdxf.lldxf.types import DXFTag
+    from ezdxf.recover import byte_tag_compiler
+
+    if not has_dxf_unicode(s) and has_mif_encoding(s):
+        return "mif"
+    try:
+        tags = list(byte_tag_compiler([DXFTag(1, s.encode("utf8"))], encoding="utf8"))
+    except Exception as e:  # noqa
+        return "err " + exc_name(e)
+    if len(tags) != 1 or tags[0].code != 1:
+        return f"other {tags!r}"
+    return "ok " + cps(tags[0].value)
+
+
+def impl_int16(s: str) -> str:
+    try:
+        return "ok " + str(int(s, 16))
+    except Exception as e:  # noqa
+        return "err " + exc_name(e)
+
+
+def impl_chr(n: int) -> str:
+    try:
+        return "ok " + str(ord(chr(n)))
+    except Exception as e:  # noqa
+        return "err " + exc_name(e)
+
+
+def impl_rt(enc: str, s: str) -> str:
+    from ezdxf.lldxf.encoding import decode_dxf_unicode, encode
+
+    try:
+        b = encode(s, enc)
+    except Exception as e:  # noqa
+        return "encerr " + exc_name(e)
+    t = b.decode(enc, errors="surrogateescape")
+    try:
+        return "ok " + cps(decode_dxf_unicode(t))
+    except Exception as e:  # noqa
+        return "err " + exc_name(e)
+
+
+# ====================================================================== generators
+def stratified_codepoints(ctx, salt: str, per_block: int):
+    """boundaries of every branch of the handler / UTF-8 / code page blocks + seeded samples of every 256-block"""
+    rng = ctx.rng("cp/" + salt)
+    pts = set()
+    edges = [0, 0x1F, 0x20, 0x7E, 0x7F, 0x80, 0x9F, 0xA0, 0xFF, 0x100, 0x7FF, 0x800, 0xFFF, 0x1000, 0x2028, 0x2029,
+             0xD7FF, 0xD800, 0xDBFF, 0xDC00, 0xDC7F, 0xDC80, 0xDCFF, 0xDD00, 0xDFFF, 0xE000, 0xFFFD, 0xFFFE, 0xFFFF,
+             0x10000, 0x10FFFF, 0xABCD, 0xFACE, 0x0A0A, 0x0D0D, 0x5C5C, 0x20AC, 0x6539]
+    for e in edges:
+        for dlt in (-1, 0, 1):
+            if 0 <= e + dlt <= 0x10FFFF:
+                pts.add(e + dlt)
+    for blk in range(0, 0x10000, 256):
+        for _ in range(per_block):
+            pts.add(blk + rng.randrange(256))
+    for _ in range(60 * per_block):
+        pts.add(rng.randrange(0x10000, 0x110000))
+    return sorted(pts)
+
+
+def codec_pools(enc: str):
+    """(encodable non-ASCII, unencodable non-surrogate BMP) characters for a codec"""
+    d = gen_data()
+    if enc == "utf8":
+        good = [x for x in range(0xA0, 0x10000, 37) if not 0xD800 <= x <= 0xDFFF]
+        return good, []
+    if enc == "ascii":
+        return [], [x for x in range(0xA0, 0x10000, 37) if not 0xD800 <= x <= 0xDFFF]
+    t = d["tables"][enc]
+    good = [x for x in t if 0x80 <= x < 0x10000]
+    bad = [x for x in range(0x80, 0x10000, 1) if x not in t and not 0xD800 <= x <= 0xDFFF]
+    return good, bad
+
+
+def category_char(rng, cat: str, good, bad):
+    if cat == "A":
+        return chr(rng.choice([0x20, 0x41, 0x5C, 0x55, 0x2B, 0x78, 0x7E, 0x30, 0x46, 0x66]))
+    if cat == "G":
+        return chr(rng.choice(good)) if good else "z"
+    if cat == "L":  # latin-1 range, codec dependent whether encodable
+        return chr(rng.randrange(0x80, 0x100))
+    if cat == "B":
+        return chr(rng.choice(bad)) if bad else chr(rng.choice(good))
+    if cat == "E":
+        return chr(rng.randrange(0xDC80, 0xDD00))
+    if cat == "S":
+        return chr(rng.choice([0xD800, 0xDBFF, 0xDC00, 0xDC7F, 0xDD00, 0xDFFF, rng.randrange(0xD800, 0xDC80)]))
+    if cat == "X":
+        return chr(rng.randrange(0x10000, 0x110000))
+    raise ValueError(cat)
+
+
+CATS = "AGLBESX"
+
+
+def encode_strings(ctx, enc: str):
+    """yield (kind, string) for the encode stream of one codec"""
+    rng = ctx.rng("enc/" + enc)
+    good, bad = codec_pools(enc)
+    if ctx.quick:
+        for x in stratified_codepoints(ctx, enc, 2):
+            yield "single", chr(x)
+    else:
+        for x in itertools.chain(range(0x10000), stratified_codepoints(ctx, enc, 2)):
+            yield "single", chr(x)
+    for n in (2, 3):
+        for pat in itertools.product(CATS, repeat=n):
+            yield "cats", "".join(category_char(rng, c, good, bad) for c in pat)
+    for _ in range(ctx.n(150, 2500)):
+        n = rng.choice([1, 2, 3, 5, 8, 13, 21, 40])
+        w = rng.choice(["AGB", "AGLB", "AGLBE", "AGLBESX", "ABX", "BE", "BBBS", "GGGB"])
+        yield "rnd", "".join(category_char(rng, rng.choice(w), good, bad) for _ in range(rng.randint(1, n)))
+
+
+def utf8_byte_strings(ctx):
+    rng = ctx.rng("utf8dec")
+    frag = [b"A", b"\\", b"\x7f", b"\xc2\x80", b"\xdf\xbf", b"\xe0\xa0\x80", b"\xe2\x82\xac", b"\xed\x9f\xbf", b"\xee\x80\x80",
+            b"\xef\xbf\xbf", b"\xf0\x90\x80\x80", b"\xf4\x8f\xbf\xbf", b"\xf1\x80\x80\x80",
+            # malformed: overlong, surrogates, > U+10FFFF, stray continuation, truncated, invalid leads
+            b"\xc0\x80", b"\xc1\xbf", b"\xe0\x80\x80", b"\xe0\x9f\xbf", b"\xed\xa0\x80", b"\xed\xbf\xbf", b"\xf0\x80\x80\x80",
+            b"\xf0\x8f\xbf\xbf", b"\xf4\x90\x80\x80", b"\xf5\x80\x80\x80", b"\xf8\x88\x80\x80\x80", b"\x80", b"\xbf", b"\xc2",
+            b"\xe2\x82", b"\xe2", b"\xf0\x9f\x98", b"\xf0\x9f", b"\xf0", b"\xff", b"\xfe", b"\xc2\x41", b"\xe2\x82\x41",
+            b"\xe2\x41\x82", b"\xf0\x9f\x41\x80", b"\xf0\x41", b"\xed\xa0", b"\xf4\x90"]
+    for f in frag:
+        yield f
+    for a in frag:
+        for b in frag[::3]:
+            yield a + b
+    for _ in range(ctx.n(1500, 20000)):
+        k = rng.randint(1, 6)
+        if rng.random() < 0.6:
+            yield b"".join(rng.choice(frag) for _ in range(k))
+        else:
+            yield bytes(rng.choice([rng.randrange(256), rng.randrange(0x80, 0x100), rng.randrange(0xC0, 0x100),
+                                    rng.randrange(0x80, 0xC0)]) for _ in range(rng.randint(1, 8)))
+
+
+UNDXF_ALPHA = ["\\", "U", "+", "2", "0", "A", "C", "a", "c", "x", "M", "G"]
+UNDXF_RICH = list("\\\\\\UUU+++MM0123456789ABCDEFabcdefxX_ -+gG\t\n") + [" ", "٣", "１", "　", "€", "\u0085",
+                                                                         "\x1c", "Ａ", "\x00"]
+INT_TAILS = ["", "0x", "0X1f", "0x_1F", "0x__1", "_1", "1_", "1__2", "1_2", " 1f ", "\t1f\n", "+1f", "-1f", "+ 1", "0x-1", "-0x1", "+-1",
+             " ", "\x1c5", "5\x1f", "٣", "0x٣", " 5", "5\u0085", "1\x00", "0_x1", "0_1", "0x1_", "１２",
+             "Ａ", "1 2", "0b1", "00x1", "x1", " - 1", "-_1", "0x_", "-0", "+0", "110000", "10FFFF", "10ffff", "-1", "D800",
+             "dc80", "7FFFFFFF", "80000000", "-80000000", "-80000001", "FFFFFFFFFFFFFFFFFFFF", "-FFFFFFFFFFFFFFFFFFFF", "zz",
+             "20AC", "20ac", "20aC", "20A", "20ACD", "G000", "+20AC", " 20AC", "20AC ", "2_0AC", "0x20", "٣٤٥٦"]
+
+
+def undxf_strings(ctx):
+    maxlen = ctx.n(4, 5)
+    for n in range(0, maxlen + 1):
+        for t in itertools.product(UNDXF_ALPHA[:9] if n == maxlen else UNDXF_ALPHA, repeat=n):
+            yield "exh", "".join(t)
+    for tail in INT_TAILS:
+        for pre in ["", "a", "\\U+0041", "\\U+0041x", "\\U+20AC\\U+00E4"]:
+            yield "tmpl", pre + "\\U+" + tail
+        yield "tmpl", "\\M+" + tail
+        yield "tmpl", tail
+    for s in ["\\U+20AC", "x\\U+20AC", "\\U+20ACx", "\\\\U+20AC", "\\U+20AC\\U+20AC", "\\U+20A\\U+20AC", "\\U+\\U+20AC", "\\U+20ac",
+              "x\\U+20ac", "\\M+182A0", "\\M+1xxxx", "\\M+682A0", "\\M+182a0", "x\\M+582A0y", "\\M+182A0\\U+20AC", "\\U+20AC\\M+182A0",
+              "\\M+182A", "\\m+182A0", "\\u+20AC", "\\U +20AC", "\\U+D800\\U+DC00", "\\U+DC80", "\\U+0000", "\\U+000A", "\\U+FFFF"]:
+        yield "tmpl", s
+    rng = ctx.rng("undxf")
+    for _ in range(ctx.n(3000, 40000)):
+        n = rng.choice([1, 2, 3, 5, 8, 13, 21, 40])
+        if rng.random() < 0.5:
+            yield "rnd", "".join(rng.choice(UNDXF_RICH) for _ in range(rng.randint(0, n)))
+        else:
+            atoms = ["\\U+", "\\M+", "\\U+20AC", "\\U+00e4", "\\M+182A0", "\\", "U", "+", "0x", "_", " ", "-", "x", "G"] + list("0123456789ABCDEFabcdef")
+            yield "rnd", "".join(rng.choice(atoms) for _ in range(rng.randint(0, n)))
+
+
+def name_strings(ctx):
+    d = gen_data()
+    rng = ctx.rng("names")
+    keys = [k for k, _ in d["cp2enc"]]
+    encs = [e for _, e in d["cp2enc"]]
+    for k in keys:
+        for pre in ["ANSI_", "ansi_", "", "DOS", "ANSI_1", "x", "ANSI_" + k]:
+            yield "toenc", pre + k
+        yield "toenc", "ANSI_" + k + " "
+        yield "toenc", "ANSI_" + k[:-1]
+        yield "toenc", "ANSI_" + k[1:]
+        yield "toenc", k + k
+    for k1 in keys:
+        for k2 in keys[::3]:
+            yield "toenc", k1 + k2
+    for s in ["", "ANSI_", "ANSI_1200", "dos437", "UTF-8", "ANSI_0", "1252", "ANSI_1252\n", "١٢٥٢", "ANSI_12520"]:
+        yield "toenc", s
+    for _ in range(ctx.n(400, 4000)):
+        yield "toenc", "".join(rng.choice("0123456789AN_S I") for _ in range(rng.randint(0, 9))) + rng.choice(keys + ["", "9"])
+    for e in encs:
+        for v in [e, e.upper(), e + " ", "x" + e, e[:-1], e.replace("cp", "")]:
+            yield "tocp", v
+    for s in ["", "utf8", "utf-8", "ascii", "latin1", "cp936", "gb2312", "big5", "shift_jis", "cp437", "cp1252\n"]:
+        yield "tocp", s
+    for _ in range(ctx.n(200, 2000)):
+        yield "tocp", "".join(rng.choice("cpgbk0123456789") for _ in range(rng.randint(0, 7)))
+
+
+def correspond(ctx):
+    from ezdxf.tools import codepage
+
+    d = gen_data()
+    build = DRIVER_DEPS
+    # which handler format does the source have (tabulated)?  the driver compares Gen with the two known formats
+    fmt = ctx.driver("C09", ["fmt"], build=build)[0]
+    ctx.note(f"handler format tabulated from the source: {fmt}")
+    _GEN_CACHE["fmt_name"] = fmt
+
+    # ---- X1 handler
+    cases = []
+    for x in (stratified_codepoints(ctx, "handler", 3) if ctx.quick else
+              list(range(0x10000)) + stratified_codepoints(ctx, "handler", 3)):
+        ctx.hist("X1 handler", "single")
+        cases.append((f"handler|src|{x}", impl_handler(chr(x)), True))
+    rng = ctx.rng("runs")
+    for n in (2, 3):
+        for pat in itertools.product("LBESX", repeat=n):
+            run = "".join(category_char(rng, c, [0x20AC], [0x20AC, 0x3A9, 0xFFFD, 0xABCD, 0x100]) for c in pat)
+            ctx.hist("X1 handler", "run-cats")
+            cases.append((f"handler|src|{cps(run)}", impl_handler(run), True))
+    for _ in range(ctx.n(500, 5000)):
+        run = "".join(category_char(rng, rng.choice("LBBEESX"), [0x20AC], [0x20AC, 0x3A9, 0xFFFD, 0xABCD, 0x100])
+                      for _ in range(rng.randint(1, 9)))
+        ctx.hist("X1 handler", "run-rnd")
+        cases.append((f"handler|src|{cps(run)}", impl_handler(run), True))
+    ctx.correspond("X1 handler", "C09", cases)
+
+    # ---- X2 encode
+    cases = []
+    for enc in ["ascii", "utf8"] + d["codecs"]:
+        ext = enc in d["dbcs"]
+        for kind, s in encode_strings(ctx, enc):
+            ctx.hist("X2 encode", f"{'dbcs' if ext else enc if enc in ('ascii', 'utf8') else 'sbcs'}/{kind}")
+            req = ext_request(enc, s, d["grouped"][enc]) if ext else f"enc|src|{enc}|{cps(s)}|"
+            out = impl_enc(enc, s)
+            nontriv = out.startswith("err") or "92" in out.split()
+            cases.append((req, out, nontriv))
+    ctx.correspond("X2 encode", "C09", cases)
+
+    # ---- X3 decode
+    cases = []
+    for b in utf8_byte_strings(ctx):
+        ctx.hist("X3 decode", "utf8")
+        cases.append((f"dec|utf8|{nat_list(b)}", impl_dec("utf8", b), any(x >= 0x80 for x in b)))
+    rng = ctx.rng("sbcsdec")
+    for enc in d["sbcs"]:
+        allb = bytes(range(256))
+        ctx.hist("X3 decode", "sbcs")
+        cases.append((f"dec|{enc}|{nat_list(allb)}", impl_dec(enc, allb), True))
+        for _ in range(ctx.n(20, 200)):
+            b = bytes(rng.randrange(256) for _ in range(rng.randint(1, 12)))
+            ctx.hist("X3 decode", "sbcs")
+            cases.append((f"dec|{enc}|{nat_list(b)}", impl_dec(enc, b), any(x >= 0x80 for x in b)))
+    ctx.correspond("X3 decode", "C09", cases)
+
+    # ---- X4 unescape side
+    from ezdxf.lldxf.encoding import has_dxf_unicode, has_mif_encoding
+
+    cases = []
+    seen = set()
+    for kind, s in undxf_strings(ctx):
+        if s in seen:
+            continue
+        seen.add(s)
+        ctx.hist("X4 unescape", kind)
+        nt = "\\U+" in s or "\\M+" in s
+        c = cps(s)
+        cases.append((f"undxf|{c}", impl_undxf(s), nt))
+        cases.append((f"has|{c}", "1" if has_dxf_unicode(s) else "0", nt))
+        cases.append((f"split|{c}", impl_split(s), nt))
+        if kind != "exh" or len(s) <= 3:
+            cases.append((f"hasmif|{c}", "1" if has_mif_encoding(s) else "0", nt))
+            cases.append((f"int16|{c}", impl_int16(s), True))
+        if "\n" not in s and "\r" not in s and "\x00" not in s:
+            cases.append((f"recover|{c}", impl_recover(s), nt))
+    for n in [-2 ** 63, -2 ** 31 - 1, -2 ** 31, -1, 0, 65, 0xD800, 0x10FFFF, 0x110000, 2 ** 31 - 1, 2 ** 31, 2 ** 64]:
+        cases.append((f"chr|{n}", impl_chr(n), True))
+    for tail in INT_TAILS:
+        cases.append((f"int16|{cps(tail)}", impl_int16(tail), True))
+    ctx.correspond("X4 unescape", "C09", cases)
+
+    # ---- X5 names
+    cases = []
+    for kind, s in name_strings(ctx):
+        ctx.hist("X5 names", kind)
+        if kind == "toenc":
+            out = codepage.toencoding(s)
+            cases.append((f"toenc|{cps(s)}", cps(out), out != "cp1252"))
+        else:
+            out = codepage.tocodepage(s)
+            cases.append((f"tocp|{cps(s)}", cps(out), out != "ANSI_1252"))
+    ctx.correspond("X5 names", "C09", cases)
+
+    # ---- X6 pipeline (model codecs only)
+    cases = []
+    for enc in ["ascii", "utf8"] + list(d["sbcs"]):
+        rng = ctx.rng("rt/" + enc)
+        good, bad = codec_pools(enc)
+        for _ in range(ctx.n(150, 1500)):
+            w = rng.choice(["AGB", "AGLB", "AGLBE", "AAAB", "GB"])
+            s = "".join(category_char(rng, rng.choice(w), good, bad) for _ in range(rng.randint(1, 16)))
+            ctx.hist("X6 pipeline", "sbcs" if enc in d["sbcs"] else enc)
+            cases.append((f"rt|src|{enc}|{cps(s)}", impl_rt(enc, s), True))
+    ctx.correspond("X6 pipeline", "C09", cases)
+
+
+# ====================================================================== oracle: real files
+LEGACY_VERSIONS = ["R12", "R2000", "R2004"]
+UTF8_VERSIONS = ["R2007", "R2010", "R2013", "R2018"]
+MODES = [("asc", "strict"), ("asc", "recover"), ("bin", "strict")]
+LAYER_FORBIDDEN = set('<>/\\":;?*|=`,')
+ASCII_SPECIAL = "\\^%{};U+xM~ '\"#@[]|`$&()*/:<=>?_"
+
+
+def is_plain_char(x: int) -> bool:
+    """BMP, not C0/DEL/C1 control, not a surrogate"""
+    return 0x20 <= x <= 0xFFFF and not (0x7F <= x <= 0x9F) and not (0xD800 <= x <= 0xDFFF)
+
+
+def has_literal_escape(s: str) -> bool:
+    return "\\U+" in s or "\\M+" in s
+
+
+def codec_table(enc: str):
+    d = gen_data()
+    if enc == "utf8":
+        return None
+    return d["tables"][enc]
+
+
+def encodable(enc: str, ch: str) -> bool:
+    try:
+        ch.encode(enc)
+        return True
+    except UnicodeEncodeError:
+        return False
+
+
+def lossy_chars(enc: str):
+    d = gen_data()
+    return set(d["dbcs"].get(enc, {}).get("lossy", []))
+
+
+def special_trail_chars(enc: str):
+    """characters of a double-byte code page whose trail byte is an ASCII character with a meaning in DXF text"""
+    d = gen_data()
+    if enc not in d["dbcs"]:
+        return []
+    out = {}
+    for x, b in d["tables"][enc].items():
+        if len(b) == 2 and is_plain_char(x) and chr(b[1]) in "\\^%{}|~@[]`_" + "ABCDEFabcdef0123456789UMx+":
+            out.setdefault(b[1], []).append(x)
+    res = []
+    for tb, xs in sorted(out.items()):
+        res += xs[:6] if chr(tb) in "\\^%{}|~" else xs[:1]
+    return res
+
+
+def sweep_codepoints(ctx, enc: str):
+    if not ctx.quick:
+        return [x for x in range(0x20, 0x10000) if is_plain_char(x)]
+    rng = ctx.rng("sweep/" + enc)
+    pts = set(x for x in stratified_codepoints(ctx, "oracle/" + enc, 3) if is_plain_char(x))
+    t = codec_table(enc)
+    if t is not None:
+        enc_pts = sorted(x for x in t if is_plain_char(x) and x >= 0x80)
+        # edges of the encodable set + a sample of it
+        for i, x in enumerate(enc_pts):
+            if i == 0 or enc_pts[i - 1] != x - 1 or i + 1 == len(enc_pts) or enc_pts[i + 1] != x + 1:
+                if rng.random() < (1.0 if len(enc_pts) < 300 else 0.08):
+                    pts.add(x)
+                    if is_plain_char(x + 1):
+                        pts.add(x + 1)
+        pts.update(rng.sample(enc_pts, min(len(enc_pts), 250)))
+        pts.update(x for x in lossy_chars(enc))
+        pts.update(special_trail_chars(enc))
+    pts.update(range(0xA0, 0x100))  # the former "\xNN" branch of the handler
+    return sorted(pts)
+
+
+def pack(points, n=16):
+    """strings of n characters in code point order; framed so that no string starts/ends with white space and no
+    literal escape prefix arises"""
+    out = []
+    for i in range(0, len(points), n):
+        s = "s" + "".join(chr(x) for x in points[i : i + n]) + "e"
+        if has_literal_escape(s):
+            s = s.replace("\\U+", "\\ U+").replace("\\M+", "\\ M+")
+        out.append(s)
+    return out
+
+
+def random_strings(ctx, enc: str, count: int):
+    rng = ctx.rng("orc-rnd/" + enc)
+    t = codec_table(enc)
+    if t is None:
+        good = [x for x in range(0xA0, 0x10000) if is_plain_char(x)]
+        bad = []
+    else:
+        good = [x for x in t if is_plain_char(x) and x >= 0x80]
+        bad = [x for x in range(0xA0, 0x10000) if is_plain_char(x) and x not in t]
+    lat = [x for x in range(0xA0, 0x100)]
+    digits_only = [x for x in (bad or good) if not any(c in "abcdef" for c in "%04x" % x)]
+    special = special_trail_chars(enc) or good
+    out = []
+    while len(out) < count:
+        n = rng.choice([1, 2, 3, 5, 8, 13, 21])
+        kinds = rng.choice(["agb", "agbl", "aabbs", "ggggb", "bbbb", "abd", "lllb", "asgb", "a", "gs"])
+        cs = []
+        for _ in range(rng.randint(1, n)):
+            k = rng.choice(kinds)
+            if k == "a":
+                cs.append(rng.choice(ASCII_SPECIAL + "abcXYZ019"))
+            elif k == "g":
+                cs.append(chr(rng.choice(good)))
+            elif k == "b":
+                cs.append(chr(rng.choice(bad or good)))
+            elif k == "l":
+                cs.append(chr(rng.choice(lat)))
+            elif k == "d":
+                cs.append(chr(rng.choice(digits_only)))
+            elif k == "s":
+                cs.append(chr(rng.choice(special)))
+        s = "".join(cs)
+        if has_literal_escape(s) or s != s.strip() or not s or s in out or s.endswith("^"):
+            continue
+        out.append(s)
+    return out
+
+
+class Place:
+    """one document of the oracle: which strings go where"""
+
+    def __init__(self, version, enc, fmt, reader, strings):
+        self.version, self.enc, self.fmt, self.reader, self.strings = version, enc, fmt, reader, strings
+
+    def ident(self):
+        return f"{self.reader}/{self.fmt}/{self.version}/{self.enc}"
+
+
+def layer_name(i: int, s: str):
+    if any(c in LAYER_FORBIDDEN for c in s) or len(s) > 200:
+        return None
+    return f"L{i}_{s}"
+
+
+def write_doc(pl: Place, path: str):
+    import ezdxf
+
+    doc = ezdxf.new(pl.version)
+    doc.encoding = pl.enc
+    msp = doc.modelspace()
+    doc.appids.add("VERIFC09")
+    mtext_ok = pl.version != "R12"
+    for i, s in enumerate(pl.strings):
+        t = msp.add_text(s)
+        t.set_xdata("VERIFC09", [(1000, s), (1070, i)])
+        if mtext_ok:
+            msp.add_mtext(s)
+        ln = layer_name(i, s)
+        if ln is not None:
+            doc.layers.add(ln)
+    if pl.strings:
+        doc.header["$MENU"] = pl.strings[0]
+        doc.header["$DIMPOST"] = pl.strings[-1]
+    doc.saveas(path, fmt=pl.fmt)
+
+
+def read_doc(pl: Place, path: str):
+    """-> dict where -> list of raw values (strict reader: still escaped)"""
+    import ezdxf
+    from ezdxf import recover
+
+    if pl.reader == "strict":
+        doc = ezdxf.readfile(path)
+    else:
+        doc, _aud = recover.readfile(path)
+    msp = doc.modelspace()
+    texts = list(msp.query("TEXT"))
+    out = {
+        "TEXT": [e.dxf.text for e in texts],
+        "XDATA": [e.get_xdata("VERIFC09")[0].value for e in texts],
+        "MTEXT": [e.text for e in msp.query("MTEXT")],
+        "LAYER": [l.dxf.name for l in doc.layers],
+        "HEADER": [doc.header["$MENU"], doc.header["$DIMPOST"]],
+        "encoding": doc.encoding,
+        "output_encoding": doc.output_encoding,
+    }
+    return out
+
+
+def function_level(enc: str, s: str, reader: str = "strict"):
+    """the same pipeline on the functions alone: encode -> codec decode -> decode_dxf_unicode
+    (the recover loader decodes only `if has_dxf_unicode(...)`)"""
+    from ezdxf.lldxf.encoding import decode_dxf_unicode, encode, has_dxf_unicode
+
+    try:
+        t = encode(s, enc).decode(enc, errors="surrogateescape")
+        if reader == "recover" and not has_dxf_unicode(t):
+            return t
+        return decode_dxf_unicode(t)
+    except Exception as e:  # noqa
+        return e
+
+
+def culprit_key(enc: str, s: str):
+    """classify a string that does not survive the function level pipeline by the first character that explains it"""
+    from ezdxf.lldxf.encoding import encode
+
+    lossy = lossy_chars(enc)
+    for ch in s:
+        x = ord(ch)
+        if encodable(enc, ch):
+            if x in lossy:
+                return f"lossy-codec/{enc}/U+{x:04X}"
+            continue
+        w = encode(ch, enc)
+        if w == b"\\x%02x" % x:
+            return f"escape/latin1-backslash-x/{enc}/U+{x:04X}"
+        if w == b"\\U+%04x" % x and w != b"\\U+%04X" % x:
+            return f"escape/lower-hex/{enc}/U+{x:04X}"
+    return None
+
+
+class Tally:
+    def __init__(self, ctx):
+        self.ctx = ctx
+        self.counts = {}
+        self.keys = set()
+
+    def fail(self, key: str, what: str, replay: dict, cap_class: str | None = None):
+        self.keys.add(key)
+        cls = cap_class or key
+        n = self.counts.get(cls, 0) + 1
+        self.counts[cls] = n
+        if n <= (12 if cls.startswith("lossy-codec") else 3):
+            self.ctx.fail(key, what, replay)
+
+
+def check_place(ctx, tally: Tally, pl: Place, depth=0):
+    from ezdxf.lldxf.encoding import decode_dxf_unicode
+
+    path = str(ctx.scratch / f"o_{os.getpid()}.dxf")
+    utf8 = pl.version in UTF8_VERSIONS
+    eff = "utf8" if utf8 else pl.enc
+    rep = {"op": "file", "version": pl.version, "enc": pl.enc, "fmt": pl.fmt, "reader": pl.reader}
+    try:
+        write_doc(pl, path)
+    except Exception as e:  # noqa
+        tally.fail(f"file-layer/save-crash/{pl.ident()}/{type(e).__name__}", f"saveas raised {type(e).__name__}: {e}",
+                   {**rep, "strings": pl.strings})
+        return
+    try:
+        got = read_doc(pl, path)
+    except Exception as e:  # noqa
+        # a string whose escapes make the loader raise takes the whole document with it: classify, drop, retry once
+        crashing = [s for s in pl.strings if isinstance(function_level(eff, s, pl.reader), Exception)]
+        explained = False
+        for s in crashing:
+            k = culprit_key(eff, s)
+            if k:
+                explained = True
+                tally.fail(k + "/load-crash", f"{pl.ident()}: loading a file with {s!r} raised {type(e).__name__}: {e}",
+                           {**rep, "strings": [s]}, cap_class=k.rsplit("/", 1)[0])
+        if not explained or depth > 0:
+            tally.fail(f"file-layer/load-crash/{pl.ident()}/{type(e).__name__}",
+                       f"{pl.reader} reader raised {type(e).__name__}: {e}", {**rep, "strings": pl.strings})
+            return
+        rest = [s for s in pl.strings if s not in crashing]
+        if rest:
+            check_place(ctx, tally, Place(pl.version, pl.enc, pl.fmt, pl.reader, rest), depth + 1)
+        return
+    finally:
+        try:
+            os.unlink(path)
+        except OSError:
+            pass
+    want_enc = pl.enc
+    if got["encoding"] != want_enc or got["output_encoding"] != ("utf-8" if utf8 else want_enc):
+        tally.fail(f"file-layer/encoding-detection/{pl.ident()}",
+                   f"document encoding after load: {got['encoding']}/{got['output_encoding']}, saved with {want_enc}",
+                   {**rep, "strings": pl.strings[:1]})
+    dec = decode_dxf_unicode if pl.reader == "strict" else (lambda v: v)
+
+    def compare(where, s, raw):
+        ctx.count("O1 file round trip", (pl.ident(), where, s), not s.isascii())
+        try:
+            val = dec(raw)
+        except Exception as e:  # noqa
+            val = e
+        if isinstance(val, str) and val == s:
+            return
+        fl = function_level(eff, s, pl.reader)
+        same = (isinstance(fl, Exception) and isinstance(val, Exception) and type(fl) is type(val)) or (
+            isinstance(fl, str) and isinstance(val, str) and fl == val)
+        k = culprit_key(eff, s) if same else None
+        shown = f"{type(val).__name__}: {val}" if isinstance(val, Exception) else repr(val)
+        if k:
+            tally.fail(k, f"{pl.ident()} {where}: {s!r} read back as {shown}", {**rep, "strings": [s], "where": where},
+                       cap_class=k.rsplit("/", 1)[0])
+        else:
+            tally.fail(f"roundtrip/{pl.ident()}/{where}/{s!r}", f"{pl.ident()} {where}: {s!r} read back as {shown}",
+                       {**rep, "strings": [s], "where": where}, cap_class=f"roundtrip/{pl.ident()}/{where}")
+
+    n = len(pl.strings)
+    for where in ("TEXT", "XDATA") + (("MTEXT",) if pl.version != "R12" else ()):
+        vals = got[where]
+        if len(vals) != n:
+            tally.fail(f"file-layer/count/{pl.ident()}/{where}", f"{where}: wrote {n} read {len(vals)}", {**rep, "strings": pl.strings})
+            continue
+        for s, raw in zip(pl.strings, vals):
+            compare(where, s, raw)
+    compare("HEADER", pl.strings[0], got["HEADER"][0])
+    compare("HEADER", pl.strings[-1], got["HEADER"][1])
+    names = {}
+    for raw in got["LAYER"]:
+        m = re.match(r"L(\d+)_", raw)
+        if m:
+            names[int(m.group(1))] = raw
+    for i, s in enumerate(pl.strings):
+        ln = layer_name(i, s)
+        if ln is None:
+            continue
+        if i not in names:
+            tally.fail(f"file-layer/layer-missing/{pl.ident()}/{s!r}", f"layer {ln!r} missing after load", {**rep, "strings": [s], "where": "LAYER"})
+            continue
+        compare("LAYER", ln, names[i])
+
+
+def oracle_places(ctx):
+    d = gen_data()
+    per_doc = ctx.n(48, 256)
+    for ei, enc in enumerate(d["codecs"]):
+        strings = pack(sweep_codepoints(ctx, enc)) + random_strings(ctx, enc, ctx.n(160, 1500))
+        combos = [(v, m) for v in LEGACY_VERSIONS for m in MODES]
+        if ctx.quick:
+            # every (version, mode) combination sees an interleaved 1/9 of the strings
+            for ci, (v, (fmt, reader)) in enumerate(combos):
+                part = strings[ci::len(combos)]
+                for i in range(0, len(part), per_doc):
+                    yield Place(v, enc, fmt, reader, part[i : i + per_doc])
+        else:
+            # every mode sees every string; the version rotates per document
+            for mi, (fmt, reader) in enumerate(MODES):
+                for di, i in enumerate(range(0, len(strings), per_doc)):
+                    v = LEGACY_VERSIONS[(di + mi + ei) % 3]
+                    yield Place(v, enc, fmt, reader, strings[i : i + per_doc])
+    # R2007+: UTF-8 whatever the document encoding says
+    strings = pack(sweep_codepoints(ctx, "utf8")) + random_strings(ctx, "utf8", ctx.n(160, 1500))
+    vers = ["R2007", "R2018"] if ctx.quick else UTF8_VERSIONS
+    combos = [(v, m) for v in vers for m in MODES]
+    for ci, (v, (fmt, reader)) in enumerate(combos):
+        part = strings[ci::len(combos)] if ctx.quick else strings
+        enc = d["codecs"][ci % len(d["codecs"])]
+        for i in range(0, len(part), per_doc):
+            yield Place(v, enc, fmt, reader, part[i : i + per_doc])
+
+
+def check_function(tally: Tally, enc: str, s: str):
+    """the property on the functions alone (both readers' post-processing)"""
+    r = function_level(enc, s)
+    r2 = function_level(enc, s, "recover")
+    if r == s and r2 == s:
+        return
+    if r == s:
+        r = r2
+    k = culprit_key(enc, s)
+    what = f"encode/decode/decode_dxf_unicode under {enc}: {s!r} -> " + (
+        f"{type(r).__name__}: {r}" if isinstance(r, Exception) else repr(r))
+    if k:
+        tally.fail(k, what, {"op": "function", "enc": enc, "strings": [s]}, cap_class=k.rsplit("/", 1)[0])
+    else:
+        tally.fail(f"roundtrip/function/{enc}/U+{ord(s[1]):04X}", what, {"op": "function", "enc": enc, "strings": [s]},
+                   cap_class=f"roundtrip/function/{enc}")
+
+
+def oracle(ctx):
+
+    d = gen_data()
+    tally = Tally(ctx)
+    # O2: the function level pipeline on every BMP code point x every codec (cheap, exhaustive in both tiers)
+    for enc in d["codecs"] + ["utf8"]:
+        for x in range(0x20, 0x10000):
+            if is_plain_char(x):
+                ctx.count("O2 function level", (enc, x), x >= 0x80)
+                check_function(tally, enc, "a" + chr(x) + "b")
+    # O1: real files
+    ndocs = 0
+    for pl in oracle_places(ctx):
+        ndocs += 1
+        ctx.hist("O1 file round trip", f"{pl.reader}/{pl.fmt}/{pl.version}")
+        check_place(ctx, tally, pl)
+    ctx.note(f"oracle documents written and read: {ndocs}; failing inputs per class (all, before the per-class cap of 12): {tally.counts}")
+    # O3: the code page written to the file names the codec that was used
+    import ezdxf
+
+    from ezdxf.tools import codepage
+
+    for enc in d["codecs"]:
+        doc = ezdxf.new("R2000")
+        doc.encoding = enc
+        path = str(ctx.scratch / "o3.dxf")
+        doc.saveas(path)
+        back = ezdxf.readfile(path)
+        ctx.count("O3 code page header", enc, True)
+        if back.encoding != enc:
+            tally.fail(f"file-layer/codepage/{enc}", f"saved with {enc}, $DWGCODEPAGE={back.header['$DWGCODEPAGE']} loads as {back.encoding}",
+                       {"op": "codepage", "enc": enc})
+        name = codepage.tocodepage(enc)
+        if codepage.toencoding(name) != enc or not codepage.is_supported_encoding(enc):
+            tally.fail(f"names/{enc}", f"tocodepage({enc!r}) = {name!r}, toencoding({name!r}) = {codepage.toencoding(name)!r}",
+                       {"op": "codepage", "enc": enc})
+
+
+def replay(ctx, rep):
+    """re-evaluate every recorded failing input; it still fails if the same key is produced again"""
+    gen_data()
+    bad = []
+    for f in rep.get("failing_inputs", []):
+        r = f["replay"]
+        tally = Tally(ctx)
+        tally.ctx = type("NoRecord", (), {"fail": staticmethod(lambda *a, **k: None), "count": ctx.count, "scratch": ctx.scratch})()
+        if r["op"] == "file":
+            check_place(tally.ctx, tally, Place(r["version"], r["enc"], r["fmt"], r["reader"], r["strings"]))
+        elif r["op"] == "function":
+            for s in r["strings"]:
+                check_function(tally, r["enc"], s)
+        elif r["op"] == "codepage":
+            import ezdxf
+            from ezdxf.tools import codepage
+
+            doc = ezdxf.new("R2000")
+            doc.encoding = r["enc"]
+            p = str(ctx.scratch / "rp.dxf")
+            doc.saveas(p)
+            if ezdxf.readfile(p).encoding != r["enc"] or codepage.toencoding(codepage.tocodepage(r["enc"])) != r["enc"]:
+                tally.keys.add(f["key"])
+        base = f["key"][: -len("/load-crash")] if f["key"].endswith("/load-crash") else f["key"]
+        if f["key"] in tally.keys or base in tally.keys:
+            bad.append(f["key"])
+    return (not bad, "; ".join(bad) or "all recorded failing inputs pass now")
